@@ -303,3 +303,26 @@ class CoroPart:
             k = len(corpus) if len(lines) > len(corpus) else 0
             cov["samples"].append(dict(stream=self.name, case=lines[k], observation=impl[k]))
         cov["parts_wall_s"][self.name] = round(time.time() - t0, 1)
+
+
+def replay(path, driver):
+    """./check C10 --replay FILE: re-run the recorded case on the real library and on the model; prints both"""
+    import json
+    d = json.load(open(path))
+    case = d.get("case")
+    if not case:
+        print("replay file has no case"); return 1
+    src = os.path.join(vlib.VERIF, "harness", "evt", "coro.cpp")
+    exe = vlib.build_plain(src, LIB, (), "gnu++20", sanitize="address,undefined", name="coro")
+    impl, crashes = run_lines(exe, [case], "case ")
+    model = driver.ask("ask coro run | " + case)
+    print("case :", case)
+    print("impl :", impl[0] if impl[0] is not None else "<aborted> " + (crashes[0][1] if crashes else ""))
+    print("model:", model)
+    if crashes:
+        print(crashes[0][2][-1500:])
+    bad = bool(crashes) or impl[0] != model or (impl[0] is not None and (monitor(impl[0]) or "!!leak" in impl[0] or "!!frame" in impl[0] or "!!root" in impl[0]))
+    if impl[0] is not None and monitor(impl[0]):
+        print("trace monitor:", monitor(impl[0]))
+    print("REPRODUCED" if bad else "not reproduced")
+    return 1 if bad else 0
